@@ -468,6 +468,26 @@ def run(ctx, res):
                                                               'never pass after a failure)'))
     for i in cb:
         res.disagreements.append(Failure('correspondence', meta[i], 'model full_execute differs from full_execution.execute'))
+    if not ctx.quick:
+        run_coqchk(res)
+
+
+def run_coqchk(res):
+    """thorough tier: re-check every compiled Props file and all it depends on with the independent checker"""
+    import re
+    import subprocess
+    mods = ['Exactly.Props.' + fn[:-3] for fn in sorted(os.listdir(os.path.join(common.COQ, 'Props')))
+            if fn.endswith('.vo')]
+    try:
+        p = subprocess.run(['timeout', '3000', 'coqchk', '-silent', '-o', '-R', '.', 'Exactly'] + mods, cwd=common.COQ,
+                           stdout=subprocess.PIPE, stderr=subprocess.STDOUT, text=True)
+        out = p.stdout
+        m = re.search(r'CONTEXT SUMMARY.*', out, re.S)
+        res.extra['coqchk'] = {'modules': mods, 'exit': p.returncode, 'summary': ' '.join((m.group(0) if m else out[-1500:]).split())}
+        if p.returncode != 0:
+            res.errors.append('coqchk failed: ' + out[-800:])
+    except OSError as ex:
+        res.errors.append('coqchk could not be run: %r' % ex)
 
 
 def replay(ctx, payload):
